@@ -18,8 +18,9 @@ META = {
         'points coincide; both call directions.  Bezier x Bezier subdivision: box_area acceptance is examined as a function (does '
         'area < tol bound the box diameter?) and the parameter bookkeeping of one subdivision step.  Path.intersect runs on stub '
         'segments whose intersect() returns symbolic pairs: every output triple has T = t2T(seg, t) and the de-duplication removes '
-        'only entries within tol of a kept one.'),
-    'outside': ['termination/depth of the subdivision', 'Arc x Line closed form and Arc x Arc (point_to_t angle loops over acos/asin), Arc x Bezier',
+        'only entries within tol of a kept one.  Arc x Line closed form: the real branch runs with recording point_to_t methods; every common point of the full ellipse and the infinite line is among the candidate points, the branch is entered only for rotation 0 (point_to_t\'s documented domain), pairs are assembled per candidate.  Arc x Bezier: parameter pairing index by index with the t1 range filter.  The first iteration of bezier_intersections runs on symbolic boxes: no pair with a degenerate box is accepted.'),
+    'outside': ['termination/depth of the subdivision', 'Arc.point_to_t / Line.point_to_t / phase2t themselves (angle loops over acos/asin) and Arc x Arc: the arc branches are covered only as far as '
+                'which candidate points / parameter pairs they form and under which precondition',
                 'the 1e-5 / 1e-3 numeric margins (exact coincidence under exact roots is what is shown)'],
     'assumptions': ['np.roots returns roots of the polynomial it is given (contract)'],
 }
@@ -354,6 +355,254 @@ def fam_subdivision_step(R):
         R.sample({'result': str(r)[:60]})
 
 
+REPLAY_ARCLINE = """
+import math
+rot, rx, ry = %r
+arcs = [Arc(complex(-rx, 0) * complex(math.cos(math.radians(rot)), math.sin(math.radians(rot))) + 1+1j, complex(rx, ry), rot, la, sw,
+            complex(0, ry) * complex(math.cos(math.radians(rot)), math.sin(math.radians(rot))) + 1+1j) for la in (0, 1) for sw in (0, 1)]
+lines = [Line(-3-2j, 5+4j), Line(1-5j, 1+6j), Line(-4+1.5j, 6+1.5j), Line(0.2-4j, 2.5+5j), Line(4+3j, -3-1j)]
+for arc in arcs:
+    for ln in lines:
+        for x, y, swap in ((arc, ln, False), (ln, arc, True)):
+            try:
+                r = x.intersect(y)
+            except (ValueError, AssertionError):
+                continue            # a refusal is tolerated
+            for t1, t2 in r:
+                ta, tl = (t2, t1) if swap else (t1, t2)
+                if not (0 <= ta <= 1 and 0 <= tl <= 1) or abs(arc.point(ta) - ln.point(tl)) > 1e-3 * (1 + rx + ry):
+                    REPRODUCED('%%r.intersect(%%r) = %%r but arc.point(%%r) = %%r, line.point(%%r) = %%r' %% (x, y, r, ta, arc.point(ta), tl, ln.point(tl)))
+        # completeness on the unrotated arcs: crossings found by sampling
+        if rot == 0:
+            N = 4000; found = []
+            prev = None
+            for i in range(N + 1):
+                p = arc.point(i / N) - ln.start; d = ln.end - ln.start
+                sd = p.real * d.imag - p.imag * d.real
+                lam = (p.real * d.real + p.imag * d.imag) / abs(d) ** 2
+                if prev is not None and prev[0] * sd < 0 and 0.01 < lam < 0.99 and 0.01 < i / N < 0.99: found.append(i / N)
+                if sd != 0: prev = (sd, i)
+            got = arc.intersect(ln)
+            for t in found:
+                if not any(abs(t - g[0]) < 2e-3 for g in got):
+                    REPRODUCED('%%r crosses %%r near arc parameter %%r but intersect() = %%r' %% (arc, ln, t, got))
+"""
+
+
+def fam_arc_line_candidates(R, radii=(2.0, 1.0), none_pattern=None, line='slope'):
+    """Arc.intersect(Line), closed-form branch: which points are handed to the two point_to_t methods, under which condition, and
+    how their answers are assembled.  The arc is known by centre, radii and rotation (symbolic); Arc.point_to_t / Line.point_to_t are
+    recorders (their own correctness is not encoded)."""
+    import svgpathtools.path as P
+    from svgpathtools.path import Arc, Line
+    P.np = NPProxy()
+    R.bound(arc='centre, rotation symbolic; radii %r' % (radii,), line=('the line through (0,c) and (1,c+m), c, m symbolic' if line == 'slope' else 'vertical through (k,0), (k,1)' if line == 'vertical' else 'symbolic end points') if none_pattern is None else 'concrete',
+            point_to_t_answers='always a parameter' if none_pattern is None else 'None for candidates %r' % (none_pattern,))
+    R.stub('Arc.point_to_t / Line.point_to_t -> recorders returning fresh parameters (Arc.point_to_t may also answer None)',
+           'Arc._parameterize -> free centre', 'complex() -> symbolic complex', 'the Bezier branch (rotated arcs) -> marker')
+    calls = []
+    orig = Arc._parameterize
+
+    def cplx(re=0, im=0):
+        if isinstance(re, (SR, SC)) or isinstance(im, SR):
+            return tosc(re) + tosc(im) * 1j
+        return complex(re, im)
+
+    def run():
+        del calls[:]
+        cx = Ctx.cur
+        ctr = symc('ctr')
+
+        def fake(self):
+            self.center = ctr
+            self.theta = self.delta = None
+        Arc._parameterize = fake
+        a_pt, l_pt = Arc.point_to_t, Line.point_to_t
+        try:
+            rx, ry, rot = lift(radii[0]), lift(radii[1]), symr('rot')
+            cx.assume(z3.Not(ceq(symc('a0'), symc('a1'))))
+            if none_pattern is None:
+                arc = Arc(symc('a0'), complex(*radii), rot, True, True, symc('a1'))
+                if line == 'slope':
+                    # every non-vertical line is the line through (0, c) and (1, c + m); its end points only matter to Line.point_to_t (a recorder here)
+                    c0, m0 = symr('c'), symr('m')
+                    l0, l1 = SC(0, c0), SC(1, c0 + m0)
+                elif line == 'vertical':
+                    k0 = symr('k')
+                    l0, l1 = SC(k0, 0), SC(k0, 1)
+                else:
+                    l0, l1 = symc('l0'), symc('l1')
+                    cx.assume(z3.Not(ceq(l0, l1)))
+            else:
+                cx.assume(rot.e == 0)
+                cx.assume(ctr.real.e == 1, ctr.imag.e == 1)
+                arc = Arc(symc('a0'), complex(*radii), rot, True, True, symc('a1'))
+                l0, l1 = tosc(-3 - 2j), tosc(5 + 4j)
+            ln = Line(l0, l1)
+
+            def arc_pt(self, p):
+                k = len([c for c in calls if c[0] == 'arc'])
+                none = (none_pattern is not None and k in none_pattern)
+                t = None if none else symr('ta%d' % k)
+                calls.append(('arc', tosc(p), t, self.rotation))
+                return t
+
+            def line_pt(self, p):
+                k = len([c for c in calls if c[0] == 'line'])
+                t = symr('tl%d' % k)
+                calls.append(('line', tosc(p), t, None))
+                return t
+            Arc.point_to_t, Line.point_to_t = arc_pt, line_pt
+
+            class Marker(Exception):
+                pass
+
+            def no_poly(*a, **k):
+                raise Marker()
+            try:
+                with patched(P, complex=cplx, polyroots01=no_poly):
+                    r = arc.intersect(ln)
+            except Marker:
+                r = 'bezier-branch'
+            return arc, ln, ctr, rx, ry, rot, l0, l1, r, list(calls)
+        finally:
+            Arc._parameterize = orig
+            Arc.point_to_t, Line.point_to_t = a_pt, l_pt
+
+    for ctx, (kind, val) in explore(run, maxpaths=4000, logic=None):
+        R.path(ctx)
+        if kind != 'ok':
+            R.unexpected(ctx, 'unexpected %s %r' % (kind, val))
+            continue
+        arc, ln, ctr, rx, ry, rot, l0, l1, r, cl = val
+
+        def cex(m):
+            inp = (mval(m, rot), max(0.3, abs(mval(m, rx))), max(0.3, abs(mval(m, ry))))
+            return {'cls': 'Arc x Line closed form', 'inputs': {'rotation': inp[0], 'rx': inp[1], 'ry': inp[2]}, 'script': REPLAY_ARCLINE % (inp,)}
+        if r == 'bezier-branch':
+            continue
+        robust_rot = [rot.e >= 10, rot.e <= 170, rx.e >= 0.5, rx.e <= 5, ry.e >= 0.5, ry.e <= 5]
+        arc_calls = [c for c in cl if c[0] == 'arc']
+        # point_to_t is documented for rotation == 0 only: the closed form may only be entered by unrotated arcs
+        R.ob('closed-form-only-for-unrotated-arcs', ctx, rot.e == 0, cex=cex, robust=robust_rot)
+        # completeness of the candidate points: every common point of the full ellipse and the infinite line is a candidate
+        w = symc('w')
+        u, v = w.real - ctr.real, w.imag - ctr.imag
+        d = l1 - l0
+        hyp = [rot.e == 0, (u * u * ry * ry + v * v * rx * rx).e == (rx * rx * ry * ry).e,
+               ((w.real - l0.real) * d.imag - (w.imag - l0.imag) * d.real).e == 0]
+        cands = [c[1] for c in arc_calls]
+        claim = z3.Or(*[ceq(w, p) for p in cands]) if cands else z3.BoolVal(False)
+        if none_pattern is None:
+          R.ob('every-common-point-is-a-candidate', ctx, claim, extra=hyp, cex=cex, timeout_ms=60000,
+             robust=[rx.e >= 0.5, rx.e <= 5, ry.e >= 0.5, ry.e <= 5, zabs(l0.real.e) <= 6, zabs(l0.imag.e) <= 6, zabs(l1.real.e) <= 6, zabs(l1.imag.e) <= 6,
+                     zabs(ctr.real.e) <= 3, zabs(ctr.imag.e) <= 3, zabs(d.real.e) + zabs(d.imag.e) >= 1] + hyp + [z3.Not(claim)] +
+                    [z3.Or(zabs((w.real - p.real).e) >= 0.05, zabs((w.imag - p.imag).e) >= 0.05) for p in cands])
+        else:
+          pass
+        # assembly: one pair per candidate for which both methods answered, in candidate order, parameters not mixed up
+        want = []
+        for c in arc_calls:
+            if c[2] is None:
+                continue
+            lc = [x for x in cl if x[0] == 'line' and x[1] is c[1] or (x[0] == 'line' and z3.eq(x[1].real.e, c[1].real.e) and z3.eq(x[1].imag.e, c[1].imag.e))]
+            if not lc:
+                want = None
+                break
+            want.append((c[2], lc[0][2]))
+        ok = want is not None and len(r) == len(want) and all(len(g) == 2 and g[0] is a_ and g[1] is b_ for g, (a_, b_) in zip(r, want))
+        R.ob('pairs=(arc parameter, line parameter) of the same candidate', ctx, z3.BoolVal(bool(ok)), cex=cex, robust=[rot.e == 0])
+        if R.paths % 40 == 1:
+            R.sample({'candidates': len(cands), 'pairs': len(r)})
+
+
+def fam_arc_bezier_pairing(R, nroots):
+    """Arc.intersect(Bezier): the parameters t2 (roots of |u1(B(t))|^2 - 1 in [0,1]) and t1 = phase2t(phase(u1(B(t2)))) are paired
+    index by index and only pairs with 0 <= t1 <= 1 are kept."""
+    import svgpathtools.path as P
+    from svgpathtools.path import Arc, QuadraticBezier
+    P.np = NPProxy()
+    R.bound(roots=nroots)
+    R.stub('polyroots01 -> %d symbolic roots' % nroots, 'phase / phase2t -> uninterpreted (phase2t(phase(u1poly(t2))) = T1(t2))', 'u1transform -> identity on the polynomial')
+    T1 = z3.Function('T1', z3.RealSort(), z3.RealSort())
+    orig = Arc._parameterize
+
+    class PolyStub:
+        def __init__(self):
+            pass
+
+        def __call__(self, t):
+            return ('u1poly-at', lift(t))
+
+        def __pow__(self, n):
+            return self
+
+        def __add__(self, o):
+            return self
+        __radd__ = __sub__ = __rsub__ = __mul__ = __rmul__ = __add__
+
+    def run():
+        Arc._parameterize = lambda self: None
+        try:
+            arc = Arc(0j, 2 + 1j, 30.0, True, True, 1 + 1j)
+            arc.center = 0j
+            bez = QuadraticBezier(0j, 1 + 1j, 2 + 0j)
+            roots = [symr('root%d' % i) for i in range(nroots)]
+            arc.u1transform = lambda z: z
+            arc.phase2t = lambda ph: SR(T1(ph[1].e))
+            ps = PolyStub()
+            with patched(P, polyroots01=lambda p: list(roots), phase=lambda z: z, real=lambda p: ps, imag=lambda p: ps):
+                P_np = P.np
+
+                class NPX(NPProxy):
+                    pass
+                P.np = NPProxy(poly1d=lambda p: ps)
+                try:
+                    r = arc.intersect(bez)
+                finally:
+                    P.np = P_np
+            return roots, r
+        finally:
+            Arc._parameterize = orig
+
+    for ctx, (kind, val) in explore(run, maxpaths=2000, logic=None):
+        R.path(ctx)
+        if kind != 'ok':
+            R.unexpected(ctx, 'unexpected %s %r' % (kind, val))
+            continue
+        roots, r = val
+
+        def cex(m):
+            return {'cls': 'Arc x Bezier pairing', 'inputs': {'roots': [mval(m, x) for x in roots]}, 'script': REPLAY_ARCBEZ}
+        # every reported pair is (T1(t2), t2) of one root, in range
+        cl = [z3.And(lift(a).e == T1(lift(b).e), lift(a).e >= 0, lift(a).e <= 1, lift(b).e >= 0, lift(b).e <= 1, z3.Or(*[lift(b).e == x.e for x in roots])) for a, b in r]
+        R.ob('reported-pairs-are-aligned', ctx, z3.And(*cl) if cl else z3.BoolVal(True), cex=cex)
+        # every root in range whose arc parameter is in range is reported
+        for x in roots:
+            inr = z3.And(x.e >= 0, x.e <= 1, T1(x.e) >= 0, T1(x.e) <= 1)
+            R.ob('in-range-root-reported', ctx, z3.Implies(inr, z3.Or(*[z3.And(lift(b).e == x.e, lift(a).e == T1(x.e)) for a, b in r]) if r else z3.BoolVal(False)), cex=cex)
+        R.sample({'roots': nroots, 'pairs': len(r)})
+
+
+REPLAY_ARCBEZ = """
+arcs = [Arc(0j, 2+1j, 0, 0, 1, 3+1j), Arc(0j, 2+1j, 30, 1, 0, 3+1j), Arc(1+1j, 2+2j, 0, 0, 0, 3+1j), Arc(-1+0j, 1.5+1j, -40, 1, 1, 1.5+0.5j)]
+bezs = [QuadraticBezier(-2-2j, 1+6j, 4-2j), CubicBezier(-3+0j, 0+4j, 2-4j, 5+1j), QuadraticBezier(0-3j, 3+1j, 0+4j), CubicBezier(-2+2j, 6+2j, -3-2j, 4-1j),
+        Line(-3-2j, 5+4j)]
+for arc in arcs:
+    for bz in bezs:
+        if isinstance(bz, Line) and arc.rotation == 0: continue
+        for x, y, swap in ((arc, bz, False), (bz, arc, True)):
+            try:
+                r = x.intersect(y)
+            except (ValueError, AssertionError):
+                continue
+            for t1, t2 in r:
+                ta, tb = (t2, t1) if swap else (t1, t2)
+                if not (0 <= ta <= 1 and 0 <= tb <= 1) or abs(arc.point(ta) - bz.point(tb)) > 1e-3 * 8:
+                    REPRODUCED('%r.intersect(%r) = %r but arc.point(%r) = %r, other.point(%r) = %r' % (x, y, r, ta, arc.point(ta), tb, bz.point(tb)))
+"""
+
+
 # ----------------------------------------------------------------------------
 # Path.intersect on stub segments
 # ----------------------------------------------------------------------------
@@ -474,6 +723,13 @@ def families(tier):
         fams.append(('prefilter-%s%s' % ('LQC'[d1 - 1], 'LQC'[d2 - 1]), 'vf.props.c12', 'fam_prefilter', {'d1': d1, 'd2': d2}))
     fams.append(('subdivision-acceptance', M, 'fam_acceptance', {}))
     fams.append(('subdivision-first-step', M, 'fam_subdivision_step', {}))
+    for nm, rad in (('2x1', (2.0, 1.0)), ('1x3', (1.0, 3.0)), ('circle', (2.0, 2.0))):
+        for ln in ('slope', 'vertical'):
+            fams.append(('arc-line-closed-form-%s-%s' % (nm, ln), M, 'fam_arc_line_candidates', {'radii': rad, 'line': ln}))
+    for pat in ((), (0,), (1,), (0, 1), (2,), (0, 3), (1, 2, 3), (0, 1, 2, 3)):
+        fams.append(('arc-line-assembly-%s' % (''.join(map(str, pat)) or 'all'), M, 'fam_arc_line_candidates', {'radii': (2.0, 1.0), 'none_pattern': pat}))
+    for n in (1, 2, 3):
+        fams.append(('arc-bezier-pairing-%d' % n, M, 'fam_arc_bezier_pairing', {'nroots': n}))
     fams.append(('path-intersect-1x1x2', M, 'fam_path_intersect', {'n1': 1, 'n2': 1, 'hits': 2}))
     fams.append(('path-intersect-2x1x1', M, 'fam_path_intersect', {'n1': 2, 'n2': 1, 'hits': 1}))
     if tier == 'thorough':
